@@ -71,6 +71,6 @@ def run(ctx):
     cov = run_sync(ctx, lambda k: k.startswith(C19_KEYS))
     # convergence in a network of honest real nodes: fork choice cascade + fast sync with the announcing peer (spec/Net.tla)
     from props import net
-    cov.update(net.run_net(ctx, lambda k: k.startswith(NET_KEYS), parts=("honest_exh", "honest_sim", "byz_sim")))
+    cov.update(net.run_net(ctx, lambda k: k.startswith(NET_KEYS), parts=("honest_exh", "honest_sim", "chg_sim")))
     finish(ctx, LEVEL, cov, assumptions=["3 validators sign on both forks (the scenarios exercise the sync machinery, not BFT safety)",
                                          "toy application; loopback libp2p; fake peers serve re-signed blocks with a wrong state root or empty segments"])
